@@ -148,6 +148,14 @@ def run_case(case):
                     p.__exit__(GeneratorExit, ex, None)
                 elif op[2] == "explicit":
                     p.deactivate()
+                elif op[2] == "twice" and not isinstance(p, _OverlayProbe):
+                    # deactivate() called inside the with-block, which then ends: the second deactivation has nothing left to undo
+                    # (it is refused - the context variable's token was used - or does nothing; either way nobody else is disturbed)
+                    p.deactivate()
+                    try:
+                        p.__exit__(None, None, None)
+                    except (RuntimeError, ValueError):
+                        pass
                 elif op[2] == "derived":
                     p.map(lambda x: x).deactivate()
                 else:
